@@ -19,6 +19,7 @@ import (
 	"github.com/skycoin/skycoin/src/coin"
 	"github.com/skycoin/skycoin/src/params"
 	"github.com/skycoin/skycoin/src/transaction"
+	"github.com/skycoin/skycoin/src/visor/dbutil"
 
 	. "verif/harness/kit"
 	nk "verif/harness/nodekit"
@@ -396,6 +397,13 @@ func icls(err error, softFlagged bool) string {
 // ---- operations
 
 func (h *hst) opInject(user bool) error {
+	if user && h.r.Chance(12) { // the user rule (no output to the null address) on either user entry point
+		av := h.avail()
+		if ux, ok := h.pick(av, false); ok {
+			t := h.w.Spend(coin.UxArray{ux}, h.headTime(), nk.SpendOpts{Fee: "rand", NOut: 1 + h.r.Intn(2), NullAddr: true})
+			return h.opInjectTxn(t, "user-nulladdr", true)
+		}
+	}
 	t, kind, ok := h.genTxn()
 	if !ok {
 		return nil
@@ -436,11 +444,31 @@ func (h *hst) opInjectTxn(t coin.Transaction, kind string, user bool) error {
 	var opC, outC string
 	if user {
 		userOK := transaction.VerifySingleTxnUserConstraints(t) == nil
-		js["op"], js["user_ok"] = "InjectUser", userOK
-		opC = fmt.Sprintf("(InjectUser %s %s %s)", tc, B(userOK), verdictCoq(v))
+		// both user entry points of the code base: Visor.InjectUserTransaction, and
+		// Visor.InjectUserTransactionTx inside WithUpdateTx (daemon.InjectBroadcastTransaction)
+		viaTx := h.r.Bool()
+		ep := "ViaInjectUserTransaction"
+		if viaTx {
+			ep = "ViaInjectUserTransactionTx"
+		}
+		js["op"], js["user_ok"], js["entry"] = "InjectUser", userOK, ep
+		opC = fmt.Sprintf("(InjectUser %s %s %s %s)", ep, tc, B(userOK), verdictCoq(v))
 		var known bool
 		var ierr error
-		if Guard(func() { known, _, _, ierr = h.n.V.InjectUserTransaction(t) }) {
+		if Guard(func() {
+			if viaTx {
+				ierr = h.n.V.WithUpdateTx("harness.InjectBroadcastTransaction", func(tx *dbutil.Tx) error {
+					var e error
+					known, _, _, e = h.n.V.InjectUserTransactionTx(tx, t)
+					return e
+				})
+				if ierr != nil {
+					known = false
+				}
+			} else {
+				known, _, _, ierr = h.n.V.InjectUserTransaction(t)
+			}
+		}) {
 			outC = "OOther"
 		} else if c := icls(ierr, false); c != "" {
 			outC = fmt.Sprintf("(OInject %s %s)", B(known), c)
@@ -449,6 +477,7 @@ func (h *hst) opInjectTxn(t coin.Transaction, kind string, user bool) error {
 			js["err"] = ierr.Error()
 		}
 		h.hist.Add("user:" + kind + ":" + outC)
+		h.hist.Add("entry:" + ep)
 	} else {
 		js["op"] = "InjectForeign"
 		opC = fmt.Sprintf("(InjectForeign %s %s)", tc, verdictCoq(v))
